@@ -362,22 +362,34 @@ Definition seed_unlinkable (o : fobs) : bool :=
 Lemma seed_step_refused force euid tg o chain :
   sr_refuse (seed_step force euid tg o chain) <> None ->
   force = false /\ path_is_secure euid tg seed_flags chain <> Secure /\
+  sr_hang (seed_step force euid tg o chain) = false /\
   sr_used (seed_step force euid tg o chain) = false /\
   sr_removed (seed_step force euid tg o chain) = false.
 Proof.
   unfold seed_step. destruct (path_is_secure euid tg seed_flags chain) as [|i r], force;
-  destruct (seed_read euid o) as [bad used]; cbn; intros H; try congruence.
+  destruct (seed_blocks o); destruct (seed_read euid o) as [bad used]; cbn; intros H; try congruence;
   repeat split; congruence.
+Qed.
+
+Lemma seed_step_hang force euid tg o chain :
+  sr_hang (seed_step force euid tg o chain) = true <->
+  sr_refuse (seed_step force euid tg o chain) = None /\ seed_blocks o = true.
+Proof.
+  unfold seed_step. destruct (path_is_secure euid tg seed_flags chain) as [|i r], force;
+  destruct (seed_blocks o); destruct (seed_read euid o) as [bad used]; cbn; split; intros H;
+  try discriminate; try tauto; try (destruct H; discriminate).
 Qed.
 
 Lemma seed_step_run force euid tg o chain :
   sr_refuse (seed_step force euid tg o chain) = None ->
+  sr_hang (seed_step force euid tg o chain) = false ->
   (force = true \/ path_is_secure euid tg seed_flags chain = Secure) /\
   sr_used (seed_step force euid tg o chain) = snd (seed_read euid o) /\
   sr_removed (seed_step force euid tg o chain) = fst (seed_read euid o) && seed_unlinkable o.
 Proof.
   unfold seed_step, seed_unlinkable. destruct (path_is_secure euid tg seed_flags chain) as [|i r], force;
-  destruct (seed_read euid o) as [bad used]; cbn; intros H; try discriminate; repeat split; tauto.
+  destruct (seed_blocks o); destruct (seed_read euid o) as [bad used]; cbn; intros H H';
+  try discriminate; repeat split; tauto.
 Qed.
 
 Lemma seed_unlinkable_spec o : seed_present o -> ~ seed_is_dir o -> seed_unlinkable o = true.
@@ -390,39 +402,75 @@ Proof.
   - destruct P as [X|X]; [discriminate|congruence].
 Qed.
 
+Definition seed_is_fifo (o : fobs) : Prop :=
+  o_symlink o = false /\ exists s, o_stat o = Some s /\ f_type s = TFifo.
+
+Lemma seed_blocks_spec o :
+  seed_blocks o = true <-> seed_is_fifo o /\ seed_open_nonblock = false.
+Proof.
+  unfold seed_blocks, seed_is_fifo, is_fifo. generalize seed_open_nonblock. intros nb.
+  destruct (o_symlink o); cbn.
+  - split; [discriminate|]. intros [[X _] _]. discriminate.
+  - destruct (o_stat o) as [s|].
+    + destruct (f_type s) eqn:T; destruct nb; cbn; split; intros H; try discriminate;
+      try (match type of H with _ /\ _ => destruct H as [[? (s' & E & T')] N]; inversion E; subst; congruence end).
+      split; [split; [reflexivity|exists s; tauto]|reflexivity].
+    + split; [discriminate|]. intros [[_ (s & E & _)] _]. discriminate.
+Qed.
+
 (* used only when acceptable; a present seed that is not acceptable is never used and is unlinked
-   (unlink(2) cannot remove a directory: the one case where it stays, unused) *)
+   (unlink(2) cannot remove a directory: the one case where it stays, unused); the start blocks exactly
+   when the seed is a FIFO and the source opens it without O_NONBLOCK *)
 Theorem seed_spec force euid tg o chain :
   let r := seed_step force euid tg o chain in
   (sr_used r = true -> seed_acceptable euid o) /\
-  (sr_refuse r = None -> seed_present o -> ~ seed_acceptable euid o ->
+  (sr_refuse r = None -> sr_hang r = false -> seed_present o -> ~ seed_acceptable euid o ->
      sr_used r = false /\ (~ seed_is_dir o -> sr_removed r = true)) /\
-  (sr_refuse r = None -> seed_acceptable euid o -> sr_used r = true /\ sr_removed r = false) /\
+  (sr_refuse r = None -> seed_acceptable euid o ->
+     sr_hang r = false /\ sr_used r = true /\ sr_removed r = false) /\
   (force = false -> (sr_refuse r = None <-> Forall (dir_ok euid tg 0) chain)) /\
-  (sr_refuse r <> None -> sr_used r = false /\ sr_removed r = false).
+  (sr_refuse r <> None -> sr_hang r = false /\ sr_used r = false /\ sr_removed r = false) /\
+  (sr_hang r = true <-> sr_refuse r = None /\ seed_is_fifo o /\ seed_open_nonblock = false) /\
+  (sr_hang r = true -> sr_used r = false /\ sr_removed r = false).
 Proof.
   cbv zeta.
   assert (F : Forall (dir_ok euid tg 0) chain <-> path_is_secure euid tg seed_flags chain = Secure).
   { rewrite path_secure_spec. apply forall_dir_ok_flags. vm_compute. reflexivity. }
-  split; [|split; [|split; [|split]]].
+  assert (HU : sr_hang (seed_step force euid tg o chain) = true ->
+               sr_used (seed_step force euid tg o chain) = false /\
+               sr_removed (seed_step force euid tg o chain) = false).
+  { unfold seed_step. destruct (path_is_secure euid tg seed_flags chain) as [|i r], force;
+    destruct (seed_blocks o); destruct (seed_read euid o) as [bad used]; cbn; intros H;
+    try discriminate; tauto. }
+  split; [|split; [|split; [|split; [|split; [|split]]]]].
   - intros U. destruct (sr_refuse (seed_step force euid tg o chain)) eqn:R.
     + assert (X : sr_refuse (seed_step force euid tg o chain) <> None) by congruence.
-      apply seed_step_refused in X. destruct X as (_ & _ & X & _). congruence.
-    + apply seed_step_run in R. destruct R as (_ & R & _). rewrite R in U.
-      apply seed_read_used. exact U.
-  - intros R P NA. apply seed_step_run in R. destruct R as (_ & R1 & R2). split.
+      apply seed_step_refused in X. destruct X as (_ & _ & _ & X & _). congruence.
+    + destruct (sr_hang (seed_step force euid tg o chain)) eqn:Hg.
+      * destruct (HU eq_refl) as [X _]. congruence.
+      * apply seed_step_run in R; [|exact Hg]. destruct R as (_ & R & _). rewrite R in U.
+        apply seed_read_used. exact U.
+  - intros R Hg P NA. apply seed_step_run in R; [|exact Hg]. destruct R as (_ & R1 & R2). split.
     + rewrite R1. destruct (snd (seed_read euid o)) eqn:E; [|reflexivity].
       apply seed_read_used in E. tauto.
     + intros ND. rewrite R2, (seed_unlinkable_spec o P ND), andb_true_r.
       apply seed_read_bad. tauto.
-  - intros R A. apply seed_step_run in R. destruct R as (_ & R1 & R2). split.
+  - intros R A.
+    assert (Hg : sr_hang (seed_step force euid tg o chain) = false).
+    { destruct (sr_hang (seed_step force euid tg o chain)) eqn:Hg; [|reflexivity].
+      apply seed_step_hang in Hg. destruct Hg as [_ B]. apply seed_blocks_spec in B.
+      destruct B as [[_ (s & E & T)] _]. destruct A as (_ & s' & E' & T' & _). congruence. }
+    split; [exact Hg|].
+    apply seed_step_run in R; [|exact Hg]. destruct R as (_ & R1 & R2). split.
     + rewrite R1. apply seed_read_used. exact A.
     + rewrite R2. destruct (fst (seed_read euid o)) eqn:E; [|reflexivity].
       apply seed_read_bad in E. tauto.
   - intros NF. subst force. rewrite F. unfold seed_step.
-    destruct (path_is_secure euid tg seed_flags chain) as [|i r]; destruct (seed_read euid o) as [bad used];
-    cbn; split; congruence.
+    destruct (path_is_secure euid tg seed_flags chain) as [|i r]; destruct (seed_blocks o);
+    destruct (seed_read euid o) as [bad used]; cbn; split; congruence.
   - intros R. apply seed_step_refused in R. tauto.
+  - rewrite seed_step_hang, seed_blocks_spec. tauto.
+  - exact HU.
 Qed.
 
 (* ---- log file ---- *)
@@ -590,3 +638,18 @@ Lemma existing_log_keeps_mode :
   startup log_0644_config = None /\ m_log (created_modes log_0644_config) = Some 420 /\
   within 420 416 = false.
 Proof. vm_compute. repeat split. Qed.
+
+(* observation: a FIFO in the seed's place (in a secure seed directory) blocks the start for ever while the
+   source opens the seed without O_NONBLOCK; with O_NONBLOCK it is vetted like any other non-regular file *)
+Definition fifo_seed_config : config :=
+  mkc true false 0 no_trusted 18
+      (mko false (Some (mkf TReg 0 0 384))) [clean_dir]
+      (mko false (Some (mkf TFifo 0 0 384))) [clean_dir]
+      (mko false None) [clean_dir]
+      [clean_dir] None [clean_dir].
+
+Lemma seed_fifo_outcome :
+  startup fifo_seed_config = (if seed_open_nonblock then None else Some (SSeed, WHang)) /\
+  (seed_open_nonblock = true -> sr_used (seed_of fifo_seed_config) = false /\
+                                sr_removed (seed_of fifo_seed_config) = true).
+Proof. vm_compute. split; [reflexivity|]. intros H; try discriminate H; split; reflexivity. Qed.
